@@ -142,4 +142,106 @@ theorem Script.wireLog : WireLog Script.world Script.wire := by
       cases a <;> simp [wireOf]
     · split <;> simp [wireOf]
 
+/-! ### predicates on the world that every OS call keeps -/
+
+structure WorldInv (W : World ω) (I : ω → Prop) : Prop where
+  wait : ∀ w d t, I w → I (W.wait w d t).2
+  send : ∀ w bs, I w → I (W.send w bs).2
+  recv : ∀ w n, I w → I (W.recv w n).2
+
+variable {I : ω → Prop}
+
+theorem WorldInv.sendNow (V : WorldInv W I) (w : ω) (bs : Bytes) (h : I w) : I (sendNow W w bs).w := by
+  have := V.send w bs h
+  unfold Net.sendNow
+  split
+  · rename_i heq; rw [heq] at this; exact this
+  · rename_i heq; rw [heq] at this; split <;> exact this
+
+theorem WorldInv.recvNow (V : WorldInv W I) (w : ω) (n : Nat) (h : I w) : I (recvNow W w n).world := by
+  have := V.recv w n h
+  unfold Net.recvNow
+  split
+  · rename_i heq; rw [heq] at this; exact this
+  · rename_i heq; rw [heq] at this; split <;> exact this
+
+theorem WorldInv.receive (V : WorldInv W I) (w : ω) (n : Nat) (t : Int) (h : I w) : I (receive W w n t).world := by
+  have := V.wait w .rd t h
+  unfold Net.receive
+  split
+  · rename_i heq; rw [heq] at this; exact this
+  · rename_i heq; rw [heq] at this; exact V.recvNow _ n this
+
+theorem WorldInv.sendAll (V : WorldInv W I) (w : ω) (bs : Bytes) (acc : Nat) (h : I w) : I (sendAll W w bs acc).w := by
+  fun_induction Net.sendAll W w bs acc with
+  | case1 w bs acc r hx => exact V.sendNow _ bs (V.wait w .wr (-1) h)
+  | case2 w bs acc r hx hrest => exact V.sendNow _ bs (V.wait w .wr (-1) h)
+  | case3 w bs acc r hx hrest hpos ih => exact ih (V.sendNow _ bs (V.wait w .wr (-1) h))
+  | case4 w bs acc r hx hrest hpos => exact V.sendNow _ bs (V.wait w .wr (-1) h)
+
+theorem WorldInv.sendTry (V : WorldInv W I) (w : ω) (bs : Bytes) (h : I w) : I (sendTry W w bs).w := by
+  have := V.wait w .wr 0 h
+  unfold Net.sendTry
+  split
+  · rename_i heq; rw [heq] at this; exact this
+  · rename_i heq; rw [heq] at this; exact V.sendNow _ bs this
+
+theorem WorldInv.sendSome (V : WorldInv W I) (w : ω) (bs : Bytes) (deadline tick : Int) (acc : Nat) (h : I w) :
+    I (sendSome W w bs deadline tick acc).1.w := by
+  fun_induction Net.sendSome W w bs deadline tick acc with
+  | case1 w bs tick acc wt hw => exact V.wait w .wr _ h
+  | case2 w bs tick acc wt hw tick' r hx => exact V.sendNow _ bs (V.wait w .wr _ h)
+  | case3 w bs tick acc wt hw tick' r hx hrest => exact V.sendNow _ bs (V.wait w .wr _ h)
+  | case4 w bs tick acc wt hw tick' r hx hrest hlt hpos ih => exact ih (V.sendNow _ bs (V.wait w .wr _ h))
+  | case5 w bs tick acc wt hw tick' r hx hrest hlt hpos => exact V.sendNow _ bs (V.wait w .wr _ h)
+  | case6 w bs tick acc wt hw tick' r hx hrest hlt => exact V.sendNow _ bs (V.wait w .wr _ h)
+
+theorem WorldInv.sendAny (V : WorldInv W I) (w : ω) (bs : Bytes) (t : Int) (h : I w) : I (Net.send W w bs t).w := by
+  unfold Net.send
+  split
+  · exact V.sendAll w bs 0 h
+  · split
+    · exact V.sendTry w bs h
+    · exact V.sendSome w bs _ _ 0 h
+
+/-- every `send` in the call log carries MSG_NOSIGNAL -/
+def AllNoSignal (calls : List Call) : Prop := ∀ bs a ns, Call.send bs a ns ∈ calls → ns = true
+
+/-- the scripted world keeps "every send so far carried MSG_NOSIGNAL" - because the flag set extracted
+from the source on this run contains it -/
+theorem Script.noSignalInv : WorldInv Script.world (fun s => AllNoSignal s.calls) := by
+  have hflag : sendNoSignal = true := by decide
+  constructor
+  · intro w d t h
+    simp only [Script.world]
+    split
+    · intro bs a ns hm; simp only [List.mem_cons] at hm; rcases hm with hm | hm
+      · cases hm
+      · exact h bs a ns hm
+    · split
+      · intro bs a ns hm; simp only [List.mem_cons] at hm; rcases hm with hm | hm
+        · cases hm
+        · exact h bs a ns hm
+      · intro bs a ns hm; simp only [List.mem_cons] at hm; rcases hm with hm | hm
+        · cases hm
+        · exact h bs a ns hm
+  · intro w bs h
+    simp only [Script.world]
+    split
+    · intro bs' a ns hm; simp only [List.mem_cons] at hm; rcases hm with hm | hm
+      · cases hm; exact hflag
+      · exact h bs' a ns hm
+    · intro bs' a ns hm; simp only [List.mem_cons] at hm; rcases hm with hm | hm
+      · cases hm; exact hflag
+      · exact h bs' a ns hm
+  · intro w n h
+    simp only [Script.world]
+    split
+    · intro bs a ns hm; simp only [List.mem_cons] at hm; rcases hm with hm | hm
+      · cases hm
+      · exact h bs a ns hm
+    · intro bs a ns hm; simp only [List.mem_cons] at hm; rcases hm with hm | hm
+      · cases hm
+      · exact h bs a ns hm
+
 end SockModel.Net
